@@ -84,9 +84,14 @@ type Interp struct {
 	f     *Func
 	state map[string]Value
 	env   map[string]Value
-	steps int
+	steps int // loop iterations of the current call
+	stmts int // statements executed in the current call
+	loops int // loop nesting depth at the point of execution
 	tags  map[string]struct{}
 }
+
+// Stmts: statements the last Call executed (a measure of how little work the call is).
+func (in *Interp) Stmts() int { return in.stmts }
 
 func newInterp(f *Func) *Interp {
 	return &Interp{f: f, state: map[string]Value{}}
@@ -120,6 +125,8 @@ const (
 func (in *Interp) Call(args []Value) (out Outcome) {
 	in.env = map[string]Value{}
 	in.steps = 0
+	in.stmts = 0
+	in.loops = 0
 	in.tags = map[string]struct{}{}
 	for i, p := range in.f.Params {
 		if args[i].T != p.T {
@@ -177,6 +184,7 @@ func (in *Interp) block(body []*S) (ctrl, Value) {
 		}
 	}()
 	for _, s := range body {
+		in.stmts++
 		switch s.K {
 		case SDecl:
 			v := in.eval(s.X)
@@ -209,29 +217,36 @@ func (in *Interp) block(body []*S) (ctrl, Value) {
 			in.tag("stmt.compound")
 		case SIf:
 			in.tag("stmt.if")
-			taken := false
+			// arm index: 0 = if, 1.. = else-if, "else"
+			arm, armBody := "", []*S(nil)
 			if truthy(in.cond(s.X)) {
-				taken = true
-				if c, v := in.block(s.Body); c != cNone {
-					return c, v
-				}
+				arm, armBody = "arm0", s.Body
 			} else {
-				for _, ei := range s.Elifs {
+				for i, ei := range s.Elifs {
 					if truthy(in.cond(ei.X)) {
-						taken = true
+						arm, armBody = fmt.Sprintf("arm%d", i+1), ei.Body
 						in.tag("if.elif-taken")
-						if c, v := in.block(ei.Body); c != cNone {
-							return c, v
-						}
 						break
 					}
 				}
+				if arm == "" && s.HasElse {
+					arm, armBody = "else", s.Else
+					in.tag("if.else-taken")
+				}
 			}
-			if !taken && s.HasElse {
-				in.tag("if.else-taken")
-				if c, v := in.block(s.Else); c != cNone {
+			if arm != "" {
+				where := "ctl.top."
+				if in.loops > 0 {
+					where = "ctl.loop."
+				}
+				in.tag(where + arm)
+				c, v := in.block(armBody)
+				if c != cNone {
+					in.tag(where + arm + "." + [...]string{"", "break", "continue", "return"}[c])
 					return c, v
 				}
+			} else {
+				in.tag("ctl.no-arm")
 			}
 		case SForRange:
 			if c, v := in.forRange(s); c == cReturn {
@@ -241,7 +256,9 @@ func (in *Interp) block(body []*S) (ctrl, Value) {
 			in.tag("loop.cond")
 			for truthy(in.cond(s.X)) {
 				in.step()
+				in.loops++
 				c, v := in.block(s.Body)
+				in.loops--
 				if c == cReturn {
 					return c, v
 				}
@@ -257,7 +274,9 @@ func (in *Interp) block(body []*S) (ctrl, Value) {
 			in.tag("loop.inf")
 			for {
 				in.step()
+				in.loops++
 				c, v := in.block(s.Body)
+				in.loops--
 				if c == cReturn {
 					return c, v
 				}
@@ -293,6 +312,9 @@ func (in *Interp) cond(e *E) Value {
 }
 
 func (in *Interp) step() {
+	if in.loops > 0 {
+		in.tag("loop.nested")
+	}
 	in.steps++
 	if in.steps > maxSteps {
 		silent("budget")
@@ -331,7 +353,9 @@ func (in *Interp) forRange(s *S) (ctrl, Value) {
 		in.step()
 		iters++
 		in.env[s.Name] = fromBig(t, i)
+		in.loops++
 		c, v := in.block(s.Body)
+		in.loops--
 		delete(in.env, s.Name)
 		if c == cReturn {
 			return c, v
